@@ -872,7 +872,13 @@ func (vc *VC) loopHead(st *State, li *loopInfo, spec *LoopSpec, pos token.Pos, r
 				}
 			}
 		}
-		if len(li.heapKeys) > 0 {
+		slabWrite := false
+		for k := range li.heapKeys {
+			if i := strings.Index(k, "."); i > 0 && vc.eng.slabTypes[k[:i]] {
+				slabWrite = true // only writes to slab objects are recorded in `touched` (see noteWrite)
+			}
+		}
+		if slabWrite {
 			// ghost write tracking is affected by heap writes
 			for _, g := range []string{"touched"} {
 				if _, declared := vc.eng.specs.Ghosts[g]; declared {
